@@ -140,6 +140,89 @@ def run_faults(exe, reqs, shards=8):
     return res
 
 
+# ------------------------------------------------------------------ overlapping Close calls / streaming peer
+def run_each(exe, test, reqs):
+    """every request in a process of its own, in parallel. returns [(observation|None, log)]"""
+    import concurrent.futures
+
+    def one(k):
+        rc, lines, log = vlib.run_harness(exe, test, json.dumps(reqs[k]) + "\n", timeout=120, tag="_e%d" % k)
+        try:
+            return (json.loads(lines[0]) if lines else None), log
+        except ValueError:
+            return None, log
+    with concurrent.futures.ThreadPoolExecutor(max(1, len(reqs))) as ex:
+        return list(ex.map(one, range(len(reqs))))
+
+
+def judge_race(rq, o, log):
+    if o is None:
+        m = [ln for ln in (log or "").split("\n") if ln.startswith(("panic:", "fatal error:"))]
+        return [("concurrent-close-crashes-process", "overlapping Close calls (%s, %d goroutines) crashed the process: %s" % (
+            rq["mode"], rq["n"], (m[0] if m else (log or "")[-300:])))]
+    bad = []
+    if o.get("npanic"):
+        bad.append(("concurrent-close-panics", "%d panic(s) in %d rounds of %d overlapping Close calls (%s%s): %s" % (
+            o["npanic"], o.get("rounds", 0), o.get("n", 0), rq["mode"],
+            ", racing the connection's failure and a Shutdown" if rq["mode"] == "connected" else "", (o.get("panics") or [])[:2])))
+    if o.get("nbad"):
+        bad.append(("concurrent-close-wrong-results", "%d round(s) of %d with wrong results for overlapping Close calls (%s): %s" % (
+            o["nbad"], o.get("rounds", 0), rq["mode"], (o.get("bad") or [])[:3])))
+    return bad
+
+
+def run_stream(exe, reqs, shards=4):
+    import concurrent.futures
+    if not reqs:
+        return []
+    shards = max(1, min(shards, len(reqs)))
+    parts = [reqs[i::shards] for i in range(shards)]
+
+    def one(k):
+        rc, lines, log = vlib.run_harness(exe, "TestVerifC09Stream", "".join(json.dumps(r) + "\n" for r in parts[k]), timeout=300, tag="_st%d" % k)
+        outs = []
+        for ln in lines:
+            try:
+                outs.append(json.loads(ln))
+            except ValueError:
+                outs.append(None)
+        return outs + [None] * (len(parts[k]) - len(outs))
+    res = [None] * len(reqs)
+    with concurrent.futures.ThreadPoolExecutor(shards) as ex:
+        for k, outs in enumerate(ex.map(one, range(shards))):
+            for j, o in enumerate(outs[:len(parts[k])]):
+                res[k + j * shards] = o
+    return res
+
+
+STREAM_EXPECT = {"served": "ok", "inflight": "closed", "shutdown": "nil", "cancelled": "ctx", "after": "ok", "at-gate": "closed"}
+
+
+def judge_stream(rq, o):
+    if o is None or o.get("error"):
+        return [("harness-run", "no usable observation for streaming scenario %s: %s" % (rq["id"], o))]
+    bad = []
+    what = {"close": "a local Close", "shutdown": "a completed Shutdown", "cancel": "a cancelled request followed by a local Close",
+            "close-unanswered-negotiation": "a local Close during an unanswered negotiation"}[rq["scenario"]]
+    if o.get("connect") == "stuck":
+        bad.append(("connect-stuck-after-local-close-streaming-peer",
+                    "Connect had not returned %d ms after %s on a healthy connection whose reader keeps sending KeepAlives/reports every %d us "
+                    "and never hangs up (%d frames streamed, %d acks)" % (rq["budget_ms"], what, rq["period_us"], o.get("streamed", 0), o.get("acks", 0))))
+    elif o.get("connect") != "closed":
+        bad.append(("connect-result-reason:stream:%s:%s" % (rq["scenario"], o.get("connect")),
+                    "Connect returned class %s after %s on a healthy connection (expected client closed)" % (o.get("connect"), what)))
+    for name, r in sorted((o.get("callers") or {}).items()):
+        if r == "stuck":
+            bad.append(("caller-stuck-streaming-peer:%s" % name, "call '%s' had not returned within %d ms (%s, streaming reader)" % (name, rq["budget_ms"], what)))
+        elif r != STREAM_EXPECT.get(name):
+            bad.append(("caller-result:stream:%s:%s" % (name, r), "call '%s' returned %s, expected %s (%s, streaming reader)" % (name, r, STREAM_EXPECT.get(name), what)))
+    if o.get("close_again") != "closed":
+        bad.append(("double-close:%s" % o.get("close_again"), "Close after everything gave %s" % o.get("close_again")))
+    if o.get("panics"):
+        bad.append(("panic", "panic: %s" % o["panics"][:2]))
+    return bad
+
+
 # ------------------------------------------------------------------ frame-level scripts (model comparison)
 def session_steps():
     """the reference session as (kind, builder function) pairs; kind: C = client writes a frame (expect),
@@ -403,6 +486,14 @@ def run(tier, seed, replay=None):
             o = run_faults(exe, [rp["request"]], shards=1)[0]
             for sig, text in judge_fault(rp["request"], o):
                 report(sig, text, dict(kind="fault", request=rp["request"], observed=o))
+        elif rp.get("kind") == "race":
+            o, log = run_each(exe, "TestVerifC09Race", [rp["request"]])[0]
+            for sig, text in judge_race(rp["request"], o, log):
+                report(sig, text, dict(kind="race", request=rp["request"], observed=o))
+        elif rp.get("kind") == "stream":
+            o = run_stream(exe, [rp["request"]])[0]
+            for sig, text in judge_stream(rp["request"], o):
+                report(sig, text, dict(kind="stream", request=rp["request"], observed=o))
         elif rp.get("kind") == "script":
             g, _ = cc.run_go(exe, [rp["script"]], shards=1)
             for sig, text in pred_script(rp["script"], g[0] or {}):
@@ -426,6 +517,35 @@ def run(tier, seed, replay=None):
                    theorem="C09_connect_stuck_refuted / C09_connect_watching_returns" if sig.startswith("connect-stuck") else "C09 (enabledness)"))
         if len(samples) < 4 and rq["variant"] != "plain" and rq["action"] in (6, 8, 11) and rq["off"] in (3, 12):
             samples.append(dict(request=rq, observed={k: o.get(k) for k in ("connect", "callers", "close2", "close3", "late", "extra_after_close_conn")} if o else None))
+
+    # ---- tie 1b: overlapping Close calls (each mode in a process of its own: a crash is attributed)
+    race_reqs = [dict(id="close-race-fresh", mode="fresh", n=4, millis=5000 if thorough else 1500),
+                 dict(id="close-race-fresh-8", mode="fresh", n=8, millis=3000 if thorough else 800),
+                 dict(id="close-race-connected", mode="connected", n=3, millis=5000 if thorough else 1500)]
+    race_obs = run_each(exe, "TestVerifC09Race", race_reqs)
+    race_rounds = 0
+    for rq, (o, log) in zip(race_reqs, race_obs):
+        evals += 1
+        dist["close-race/" + rq["mode"]] = dist.get("close-race/" + rq["mode"], 0) + 1
+        nontriv.add((rq["id"],))
+        for sig, text in judge_race(rq, o, log):
+            report(sig, text, dict(kind="race", request=rq, observed=o))
+        race_rounds += (o or {}).get("rounds", 0)
+
+    # ---- tie 1c: a reader that never goes quiet and never hangs up (time budget, not quiescence)
+    stream_reqs = [dict(id="stream-%s-v%d-p%d" % (sc, v, per), version=v, scenario=sc, period_us=per, budget_ms=2000)
+                   for v in (1, 2) for sc in ("close", "shutdown", "cancel") for per in ((2000,) if not thorough else (500, 2000, 8000))]
+    stream_reqs += [dict(id="stream-close-unanswered-negotiation-p%d" % per, version=2, scenario="close-unanswered-negotiation",
+                         period_us=per, budget_ms=2000) for per in ((2000,) if not thorough else (500, 2000, 8000))]
+    stream_obs = run_stream(exe, stream_reqs)
+    for rq, o in zip(stream_reqs, stream_obs):
+        evals += 1
+        dist["stream/" + rq["scenario"]] = dist.get("stream/" + rq["scenario"], 0) + 1
+        nontriv.add((rq["id"],))
+        for sig, text in judge_stream(rq, o):
+            report(sig, text + " [%s]" % rq["id"], dict(kind="stream", request=rq, observed=o))
+    if stream_obs and stream_obs[0]:
+        samples.append(dict(request=stream_reqs[0], observed=stream_obs[0]))
 
     # ---- tie 2: frame-level scripts against the model (with / without the fixed Connect)
     scripts = gen_scripts(thorough)
@@ -467,6 +587,7 @@ def run(tier, seed, replay=None):
              "non-trivial (a live session with callers in flight); distinct by (version, action, offset, variant) / script id",
         samples=samples, input_distribution=dist, traces_validated_against_impl=len(scripts),
         fault_points=len({(r["version"], r["action"], r["off"]) for r in reqs}),
+        close_race_rounds=race_rounds, streaming_peer_runs=len(stream_reqs),
         stuck_fault_points={k: dict(count=len(v), first=v[:3]) for k, v in stuck_points.items()},
         model_variant=dict(connect_watches_errs_while_negotiating=watch, filter_unsolicited=variant[0], stamp_always=variant[1], disagreeing=n),
         partial="time-bounded wording ('promptly', 'once the connection ends') is proved as enabledness and measured by quiescence",
